@@ -153,6 +153,7 @@ class GGen:
     def __init__(self, rng, dim, nest=1, iface=False):
         self.r, self.d, self.nest, self.iface = rng, dim, nest, iface
         self.restr = not iface        # restrictions minus(u) / plus(u) may occur as atoms
+        self.second = False           # argument of a second-order operator: keep the kernel checks tractable
 
     # ---- leaves
     def sf(self):
@@ -200,6 +201,8 @@ class GGen:
     def exponent(self):
         r = self.r
         c = r.random()
+        if self.second:     # second derivatives of quotients / roots explode in the field normaliser
+            return num(r.choice([2, 2, 3])) if c < 0.8 else self.const()
         if c < 0.45:
             return num(r.choice([2, 3, -1, -2]))
         if c < 0.55:
@@ -348,6 +351,9 @@ def gen_case(rng, tier):
     ops = OPS_BY_DIM[d]
     op = rng.choices(ops, [WEIGHT[o] for o in ops])[0]
     g = GGen(rng, d, nest=rng.choice([0, 1, 1, 2]) if tier != "quick" else rng.choice([0, 1, 1]))
+    if op in ("Laplace", "Hessian"):
+        g.second = True
+        depth = min(depth, 2)
     s, v, m = g.scalar, g.vector, g.matrix
     t = rng.random()
     if op == "Grad":
@@ -528,20 +534,39 @@ def main(run, replay=None):
         files[name] = HEADER + "Eval vm_compute in %s.\nEval vm_compute in %s.\n" % (
             coq_list(terms[k:k + per]), coq_list(arms[k:k + per]))
         index.append((name, owners[k:k + per]))
-    coq_out = run.coq_eval_many(files, timeout=1500)
+    coq_out = run.coq_eval_many(files, timeout=600 if quick else 900)
     code, marm = {}, {}
+    retry = {}
+    term_of = dict(zip(owners, zip(terms, arms)))
     for name, own in index:
         rc, out = coq_out[name]
         vals = parse_nat_lists(out) if rc == 0 else None
         strs = parse_str_list(out) if rc == 0 else None
         if vals is None or strs is None or len(vals) != len(own) or len(strs) != len(own):
-            run.report({"kind": "cases-file"}, "generated case file did not evaluate", {"file": name, "log": out[-1500:]},
-                       found_input=False, theorem_or_case=name)
+            # a heavy case (large rational functions) can exhaust the time of its file: evaluate its cases one by one
+            for ci in own:
+                t, a = term_of[ci]
+                retry["case_C02_%d" % ci] = HEADER + "Eval vm_compute in %s.\nEval vm_compute in %s.\n" % (
+                    coq_list([t]), coq_list([a]))
             continue
-        for ci, v, s in zip(own, vals, strs):
+        for ci, v, st in zip(own, vals, strs):
             code[ci] = v
-            marm[ci] = s
-
+            marm[ci] = st
+    coq_single_failed = []
+    if retry:
+        out2 = run.coq_eval_many(retry, timeout=240)
+        for name, (rc, out) in out2.items():
+            ci = int(name.rsplit("_", 1)[1])
+            vals = parse_nat_lists(out) if rc == 0 else None
+            strs = parse_str_list(out) if rc == 0 else None
+            if vals and strs and len(vals) == 1 and len(strs) == 1:
+                code[ci] = vals[0]
+                marm[ci] = strs[0]
+            elif rc == 124 or "timeout" in out.lower() or rc == 137:
+                coq_single_failed.append(ci)          # too heavy for the kernel: decided by the oracle only
+            else:
+                run.report({"kind": "cases-file"}, "generated case file did not evaluate", {"file": name, "log": out[-1500:], "case": cases[ci]},
+                           found_input=False, theorem_or_case=name)
     t_coq = time.time() - t_coq
     # ---- decide
     stats = {"proved_equal_to_literal": 0, "checker_incomplete": 0, "oracle_checked": 0, "oracle_failures": 0,
@@ -549,9 +574,10 @@ def main(run, replay=None):
              "model_refuses": 0, "both_raise": 0, "raise_on_ill_typed": 0, "ill_typed_literal": 0, "argument_build_failed": 0,
              "unsupported_node": 0, "tag_agrees": 0, "tag_mismatch": 0,
              "lowering_proved_equal": 0, "lowering_unavailable": 0, "lowering_disagrees_c01": 0, "lowering_unproved": 0,
-             "typing_disagreement": 0}
+             "typing_disagreement": 0, "coq_case_too_heavy": len(coq_single_failed)}
     failing, corr = [], []
     tag_mismatches = []
+    typing_samples = []
     arm_hist, model_arm_hist, err_hist = {}, {}, {}
     traces = 0
     for ci, (c, r) in enumerate(zip(cases, results)):
@@ -576,6 +602,11 @@ def main(run, replay=None):
             stats["unsupported_node"] += 1
             continue
         if v is None:
+            if ci in coq_single_failed:
+                kind = failure_kind(r)
+                if kind:
+                    stats["oracle_failures"] += 1
+                    failing.append((ci, kind, "the constructed expression does not denote the same field as the literal application (numeric oracle; the case was too heavy for the kernel check)"))
             continue
         mk = "%s/%s" % (c["op"], marm.get(ci))
         model_arm_hist[mk] = model_arm_hist.get(mk, 0) + 1
@@ -587,6 +618,8 @@ def main(run, replay=None):
         lit_coq = (c_rl != 3)
         if bool(orc.get("lit_ok")) != lit_coq and "error" not in orc:
             stats["typing_disagreement"] += 1
+            if len(typing_samples) < 6:
+                typing_samples.append({"case": c, "oracle_lit_ok": orc.get("lit_ok"), "oracle_msg": orc.get("lit_msg"), "coq_codes": v})
         if "err" in out:
             err_hist[out["err"]] = err_hist.get(out["err"], 0) + 1
             if not orc.get("lit_ok") or not lit_coq:
@@ -761,6 +794,7 @@ def main(run, replay=None):
         "arm_histogram_impl": arm_hist,
         "arm_histogram_model": model_arm_hist,
         "tag_mismatches": tag_mismatches,
+        "typing_disagreement_samples": typing_samples,
         "error_kinds": err_hist,
         "size_histogram": size_hist, "dimension": dims, "node_kinds": node_hist,
         "samples": [c for c in cases[-3:]],
